@@ -217,6 +217,10 @@ func c16Gen(c *Ctx, tp *tape.Tape, extra map[string]any) *Failure {
 			k.MaxGroups = 2
 		}
 		k.MaxEdits += 3
+		if tp.Next(5) == 0 {
+			k.DropIfaces = true
+			k.MaxIfaces = 3
+		}
 	})
 	dev := cisco.Print(cs.A, cs.PO)
 	kk := 4
